@@ -22,6 +22,10 @@ package adapter
 
 import (
 	"encoding/json"
+	"strings"
+
+	"github.com/cosmos/gogoproto/proto"
+	"google.golang.org/protobuf/reflect/protoreflect"
 
 	"github.com/cosmos/cosmos-sdk/codec"
 
@@ -34,6 +38,9 @@ import (
 // the data transfer type.
 type JSONParser struct {
 	cdc codec.Codec
+	// oneofs holds, for every oneof of the orbiter messages, the
+	// accepted JSON names of each of its members.
+	oneofs [][][]string
 }
 
 // NewJSONParser returns a reference to a JSONParser instance.
@@ -43,7 +50,8 @@ func NewJSONParser(cdc codec.Codec) (*JSONParser, error) {
 	}
 
 	return &JSONParser{
-		cdc: cdc,
+		cdc:    cdc,
+		oneofs: orbiterOneofs(),
 	}, nil
 }
 
@@ -77,6 +85,14 @@ func (p *JSONParser) Parse(jsonString string) (*core.Payload, error) {
 		return nil, core.ErrParsingPayload.Wrap("json lists cannot contain null elements")
 	}
 
+	// The codec resolves an object setting more than one member of a oneof by iterating
+	// over a map, so the member that ends up in the payload is not deterministic.
+	if setsMultipleOneofMembers(jsonData, p.oneofs) {
+		return nil, core.ErrParsingPayload.Wrap(
+			"json objects cannot set more than one member of a oneof",
+		)
+	}
+
 	pw := core.PayloadWrapper{}
 	err = types.UnmarshalJSON(p.cdc, []byte(jsonString), &pw)
 	if err != nil {
@@ -102,6 +118,78 @@ func hasNullListElement(value any) bool {
 	case []any:
 		for _, e := range v {
 			if e == nil || hasNullListElement(e) {
+				return true
+			}
+		}
+	}
+
+	return false
+}
+
+// orbiterOneofs returns the oneofs defined by the orbiter messages. Every oneof
+// is a list of members, and every member is the list of JSON names the codec
+// accepts for it.
+func orbiterOneofs() [][][]string {
+	var oneofs [][][]string
+
+	var visit func(mds protoreflect.MessageDescriptors)
+	visit = func(mds protoreflect.MessageDescriptors) {
+		for i := range mds.Len() {
+			md := mds.Get(i)
+			for j := range md.Oneofs().Len() {
+				fields := md.Oneofs().Get(j).Fields()
+				members := make([][]string, 0, fields.Len())
+				for k := range fields.Len() {
+					members = append(
+						members,
+						[]string{string(fields.Get(k).Name()), fields.Get(k).JSONName()},
+					)
+				}
+				oneofs = append(oneofs, members)
+			}
+			visit(md.Messages())
+		}
+	}
+
+	proto.HybridResolver.RangeFiles(func(fd protoreflect.FileDescriptor) bool {
+		if strings.HasPrefix(string(fd.Package()), "noble.orbiter") {
+			visit(fd.Messages())
+		}
+
+		return true
+	})
+
+	return oneofs
+}
+
+// setsMultipleOneofMembers returns true if any object nested in the decoded
+// JSON value has keys for more than one member of the same oneof.
+func setsMultipleOneofMembers(value any, oneofs [][][]string) bool {
+	switch v := value.(type) {
+	case []any:
+		for _, e := range v {
+			if setsMultipleOneofMembers(e, oneofs) {
+				return true
+			}
+		}
+	case map[string]any:
+		for _, members := range oneofs {
+			set := 0
+			for _, names := range members {
+				for _, name := range names {
+					if _, found := v[name]; found {
+						set++
+
+						break
+					}
+				}
+			}
+			if set > 1 {
+				return true
+			}
+		}
+		for _, e := range v {
+			if setsMultipleOneofMembers(e, oneofs) {
 				return true
 			}
 		}
